@@ -144,7 +144,9 @@ public:
         for (std::size_t i = 0; i != size; ++i)
         {
             RandomNumberEngine rne;
-            in >> rne;
+            // skip the newline that separates the generators explicitly: the stream extraction
+            // operators of some engines (e.g. `std::minstd_rand`) do not skip leading whitespace
+            in >> std::ws >> rne;
             generators_.push_back(rne);
         }
     }
